@@ -68,7 +68,7 @@ def tie_rule(chk, db):
 FIXTURE = os.path.join(D.VERIF, "fixtures", "iter_pos.hpp")
 
 
-META_EXTRA = 'IT3 (returned output cursor is advanced after its last write); IT4 (downward scans visit the first element); IT5 (`if constexpr` alternatives consult the same range ends).'
+META_EXTRA = 'IT3 (returned output cursor is advanced after its last write); IT4 (downward scans visit the first element); IT5 (`if constexpr` alternatives consult the same range ends); TIE-ELEM (min/max/minmax_element replace their holder in exactly the specified orderings); MERGE3 (one step of the merge-like algorithms per ordering of the heads); PARAM.'
 META = (META[0] + " " + META_EXTRA, META[1])
 
 
@@ -227,8 +227,8 @@ def run(chk, tier):
     if nrel < 6:
         chk.analysis_broken("REL: reverse_iterator operators not modelled")
     chk.assumptions += [
-        "returned values/iterators and resulting sequences are run-time values and are not decided (search_n's match start, "
-        "shift_right's first element, stability of the sorts are invisible to these rules)",
+        "resulting sequences and match positions are run-time values and are not decided in general (search_n's match start, the "
+        "counting logic of is_permutation / find_end, stability of the sorts are invisible to these rules)",
         "cursors advanced by iterator arithmetic (advance/next/prev/+n/--) are not modelled; they are listed under not_modelled",
         "trailing cursors (write positions that follow the scan cursor) are not required to be checked themselves",
     ]
